@@ -365,10 +365,14 @@ PROPS["C16"] = {
              "Oracle after every outcome and quiescence: tokens.count() and the number of tokens taken both equal the harness' model "
              "of open sessions (each slot released exactly once); polls report a multiple of 8 not above the slots in use; at capacity "
              "another slot cannot be taken until a session ends, and then can; at the end the count is back to idle. Non-trivial = "
-             ">= 2 different failing exit paths and a success, or a sequence that reaches capacity."),
+             ">= 2 different failing exit paths and a success, or a sequence that reaches capacity. c16_load_report: capacities {unlimited, 9..40}, "
+             "0-40 sessions running when a poll starts, 0-2 polls answered 'no match' (the proxy re-polls after 5 s real time) with 0-10 sessions "
+             "ending between polls; every poll must report a multiple of 8 not above the slots in use at that moment. Non-trivial = the load "
+             "drops below a multiple of 8 between two polls of one session."),
     "assumptions": ["real time is used only through the stall rule (budgets of 15 s and more for steps that take milliseconds)",
                     "the simultaneous data-channel-timeout/open tie cannot be constructed in real time (DESIGN section 8)"],
-    "units": [U("c16_sessions", "inpkg", "proxy/lib", "^TestVerifC16Sessions$", (40, 400), shards=(8, 16), timeout=(400, 3000))],
+    "units": [U("c16_sessions", "inpkg", "proxy/lib", "^TestVerifC16Sessions$", (40, 400), shards=(8, 16), timeout=(400, 3000)),
+              U("c16_load_report", "inpkg", "proxy/lib", "^TestVerifC16LoadReport$", (6, 60), shards=(8, 16), timeout=(400, 3000))],
 }
 META["C16"] = {
     "level": "Sampled exploration of session-outcome sequences against the real proxy session code with real pion peers and a scripted broker; a model of open sessions is compared with the proxy's slot accounting after every outcome.",
